@@ -273,6 +273,10 @@ fn drops_snapshot(m: &Model) -> Vec<(u16, i32)> {
 }
 
 fn check_drops<M: RawMutex + 'static, A: RingBuf<Item = Tagged> + 'static>(c: &mut Ctx<'_, M, A>, before: &[(u16, i32)], allowed: &Allowed, harness_dropped: &[u16], run: &mut Run) {
+    check_drops2(c, before, allowed, harness_dropped, run, false)
+}
+
+fn check_drops2<M: RawMutex + 'static, A: RingBuf<Item = Tagged> + 'static>(c: &mut Ctx<'_, M, A>, before: &[(u16, i32)], allowed: &Allowed, harness_dropped: &[u16], run: &mut Run, closing: bool) {
     for (id, was) in before {
         let now = payload::drops(*id);
         if now > 1 {
@@ -290,8 +294,9 @@ fn check_drops<M: RawMutex + 'static, A: RingBuf<Item = Tagged> + 'static>(c: &m
                 c.m.val(*id).slot = None;
                 run.class(CL_WITHDRAWN);
             } else {
-                run.violate(
+                run.violate2(
                     "C08",
+                    if closing { "C11" } else { "C08" },
                     "silently-dropped",
                     format!("value v{} was dropped by the channel during an operation that may not discard it (received={}, returned={}, accepted={})", id, rec.received, rec.returned, rec.ok),
                 );
@@ -939,7 +944,7 @@ fn step<M: RawMutex + 'static, A: RingBuf<Item = Tagged> + 'static>(c: &mut Ctx<
                 harness_dropped.push(*id);
             }
         }
-        check_drops(c, &before, &allowed, &harness_dropped, run);
+        check_drops2(c, &before, &allowed, &harness_dropped, run, op.code == OP_CLOSE);
     }
     finish_step(c, op, run, owners_before, may_grow, avail_before, recv_pending_before)
 }
@@ -1074,7 +1079,7 @@ fn monitors<M: RawMutex + 'static, A: RingBuf<Item = Tagged> + 'static>(c: &mut 
             views.push(SlotView { queue: 1, idx: i as u8, range: s.range(), pending: s.pending(), woken: s.woken() });
         }
         let mut order = std::mem::take(&mut c.order);
-        check_list_queues(&c.snap, &[0, 1], &views, run, &mut order);
+        check_list_queues(&c.snap, &[0, 1], &views, run, &mut order, "C10");
         c.order = order;
         // C09 (implementation visible part): the buffer never holds more than its capacity
         if let (Some(len), false) = (c.snap.scalar("buffer_len"), run.failed()) {
